@@ -44,7 +44,7 @@ def hits_from_bads(prop, bads, programs, kind="program"):
 def run(chk):
     fam = "quick" if chk.tier == "quick" else "thorough"
     programs = projlib.generate(chk, "GenC09.tla", {"Family": fam}, name=fam, timeout=900)
-    obs = pb.compile_programs(chk, programs, want=("ops",))
+    obs, demos = pb.compile_programs_and_demos(chk, programs, ("ops",))
     outcomes = {}
     for o in obs:
         outcomes[o["outcome"]] = outcomes.get(o["outcome"], 0) + 1
@@ -54,14 +54,17 @@ def run(chk):
     bads = pb.judge(chk, "ObsC09.tla", recs, tag="c09")
     n_ops = sum(len(r["ops"]) for r in recs)
     hits = hits_from_bads("C09", bads, programs)
-    demo_hits, demo_ops = run_demos(chk)
+    demo_hits, demo_ops = run_demos(chk, demos)
     sigs = pb.report_grouped(chk, "C09", hits + demo_hits)
     chk.cov["evaluations"] = n_ops + demo_ops
     chk.cov["distinct_nontrivial"] = sum(1 for r in recs if len(r["ops"]) >= 1)
     chk.cov["rule"] = "programs accepted by the compiler with at least one generated operation; evaluations = operations judged"
     chk.cov["exhaustive"] = True
-    chk.cov["programs"] = {"generated": len(programs), "outcomes": outcomes, "operations": n_ops, "demo_operations": demo_ops,
+    chk.cov["detail"] = {"generated": len(programs), "outcomes": outcomes, "operations": n_ops, "demo_operations": demo_ops,
                            "programs_with_invalid_operation": len(bads), "signatures": sigs}
+    chk.cov["programs"] = len(programs) + len(demos)
+    chk.cov["trusted_base"] = ["engines/isorender.py (program -> text)", "harness/h_compile (swc evaluation of the default export, strict GraphQL parser)",
+                               "engines/proj_pb_sdl.py (SDL -> schema data for the checked-in projects)", "TLC"]
     for r in recs[:3]:
         chk.sample({"program": programs[r["id"]], "operations": [o["path"] for o in r["ops"]]})
     chk.assumptions += [
@@ -71,15 +74,10 @@ def run(chk):
     ]
 
 
-def run_demos(chk):
+def run_demos(chk, demos=None):
     from engines import proj_pb_sdl as sdl
     hits, n_ops = [], 0
-    for name in pb.DEMOS:
-        proj, text = pb.demo_project(name)
-        proj["want"] = ["ops"]
-        o = projlib.compile_all(chk, [proj], want=["ops"])[0]
-        if o["outcome"] != "ok":
-            raise ToolError(f"checked-in project {name} does not compile: {o.get('diagnostics') or o.get('panic_msg')}")
+    for name, (o, text) in (demos or pb.compile_demos(chk, ["ops"])).items():
         rec = records_c09([o])[0]
         n_ops += len(rec["ops"])
         sch = sdl.project_schema(text, [x["op"] for x in rec["ops"]])
